@@ -572,11 +572,12 @@ class Measure(object):
           # on the circle of fifths, which has 12 positions.
           key_transpose = (transpose * -5) % 12
           new_key = self.key_signature.key + key_transpose
-          # If the new key has >6 sharps, translate to flats.
+          # If the new key has >6 sharps, translate to flats (or, past 12, to
+          # fewer sharps): 12 steps on the circle of fifths are the same key.
           # TODO(fjord): Could be more smart about when to use sharps vs. flats
           # when there are enharmonic equivalents.
           if new_key > 6:
-            new_key %= -6
+            new_key -= 12
           self.key_signature.key = new_key
       else:
         # Ignore other tag types because they are not relevant to Magenta.
